@@ -31,6 +31,8 @@ META = {
             "Every look-up executed (also those made inside the HCM detector workloads) is checked bitwise against the wrapped law evaluated on the class-edge grid; loads exactly on, one ulp below and above every edge are required classes.", "3 C07"),
     "C08": ("exploration", "runtime monitoring: reference-model oracle (independent Basquin/probit model) plus algebraic relation monitors and a snapshot monitor on the source object",
             "Every evaluated curve is compared with an independent model and with the inverse, slope, continuity, Miner, quantile and transform-group relations; broadcast evaluation is compared with per-element scalar evaluation.", "3 C08"),
+    "C09": ("exploration", "runtime monitoring: reference-model oracles (literal damage accumulation loop, closed-form curve algebra, guideline P_RAM and gamma_L formulas, scipy normal quantile) on the real accessors",
+            "Curves, damage parameter, accumulated lifetime, safety index and load safety factors of every generated case are compared with independent closed forms / a literal accumulation loop.", "3 C09"),
     "C03": ("exploration", "runtime monitoring: metamorphic relation monitors between executions (refinement, negation, "
             "affine map, NaN insertion, Series index types), sanitizer replays",
             "Relations between pairs of real executions, each with its own counter; ties that rounding may flip are "
